@@ -75,7 +75,13 @@ def sym_obj(eng, spec, name, alpha):
     if k == 'list':
         return [sym_obj(eng, s, f"{name}{i}", alpha) for i, s in enumerate(spec[1])]
     if k == 'mset':
-        return MSet(sym_obj(eng, s, f"{name}{i}", alpha) for i, s in enumerate(spec[1]))
+        m = MSet(sym_obj(eng, s, f"{name}{i}", alpha) for i, s in enumerate(spec[1]))
+        if len(spec) < 3 or spec[2] != 'dups':
+            # region of the listed finding KF-mset-duplicates is excluded here and explored by dedicated jobs
+            for x, y in itertools.combinations(m, 2):
+                r = obj_equal(x, y)
+                eng.assume(z3.Not(r.e) if builtins.isinstance(r, SBool) else (not r))
+        return m
     if k == 'dict':
         keys = [fresh_pay(eng, f"{name}k{i}", kl, 'str', alpha) for i, (kl, _) in enumerate(spec[1])]
         for x, y in itertools.combinations(keys, 2):
@@ -571,6 +577,7 @@ def run_tree_job(job, body, site_default='diff', path_wall_s=20, tick_cap=40000,
     counters = dict(exception_paths=0, hang_paths=0)
 
     def fn(eng):
+        stubs.LSA_MEMO = {}       # scipy is a function of its input: same symbolic table => same assignment on this path
         objA = sym_obj(eng, job['A'], 'a', alpha)
         objB = sym_obj(eng, job['B'], 'b', alpha)
         eng.notes['objs'] = (objA, objB)
@@ -664,9 +671,176 @@ def fam_list(n, m, pat='a', pat2=None):
     return ('list', ileaves(n, pat)), ('list', ileaves(m, pat2 or pat))
 
 
-def fam_mset(n, m, pat='a', pat2=None):
+def fam_mset(n, m, pat='a', pat2=None, dups=False):
+    if dups:
+        return ('mset', ileaves(n, pat), 'dups'), ('mset', ileaves(m, pat2 or pat), 'dups')
     return ('mset', ileaves(n, pat)), ('mset', ileaves(m, pat2 or pat))
 
 
 def fam_dict(n, m, pat='a', pat2=None):
     return (('dict', [(1, v) for v in ileaves(n, pat)]), ('dict', [(1, v) for v in ileaves(m, pat2 or pat)]))
+
+
+# ------------------------------------------------------------------ job families (shared by the tree properties)
+def L(*xs):
+    return ('list', list(xs))
+
+
+def I(n=1):
+    return ('i', n)
+
+
+def D(*vals, klen=1):
+    return ('dict', [(klen, v) for v in vals])
+
+
+def families(tier, want=None):
+    """[(family-name, A-spec, B-spec, dict-strategies, list-modes, weight)]"""
+    quick = tier == 'quick'
+    out = []
+    N = 3 if quick else 4
+    pats = [('a', 'a'), ('a', 'b')] if quick else [('a', 'a'), ('a', 'b'), ('b', 'a'), ('c', 'd')]
+    for n in range(N + 1):
+        for m in range(N + 1):
+            if not quick and n + m > 7:
+                continue
+            for pa, pb in pats:
+                A, B_ = fam_list(n, m, pa, pb)
+                out.append((f"list{n}{m}{pa}{pb}", A, B_, ['auto'], ['on', 'off', 'same'], n * m + 1))
+    Nm = 3
+    mp = [('a', 'a'), ('a', 'b'), ('b', 'a')]
+    for n in range(Nm + 1):
+        for m in range(Nm + 1):
+            if n + m > (5 if quick else 6):
+                continue
+            for pa, pb in mp:
+                A, B_ = fam_mset(n, m, pa, pb)
+                out.append((f"mset{n}{m}{pa}{pb}", A, B_, ['auto'], ['on'], n * m * 3 + 1))
+    for n in range(4):
+        for m in range(4):
+            for pa, pb in mp:
+                A, B_ = fam_dict(n, m, pa, pb)
+                strategies = ['auto', 'none'] + (['match'] if n + m <= (4 if quick else 5) else [])
+                for st in strategies:
+                    out.append((f"dict{n}{m}{pa}{pb}", A, B_, [st], ['on'], (n * m * (8 if st == 'match' else 1)) + 1))
+    # nested, depth 2
+    nested = [
+        ('LL-12-21', L(L(I()), L(I(), I(2))), L(L(I(), I()), L(I(2)))),
+        ('LL-11-11', L(L(I(2)), L(I())), L(L(I()), L(I(2)))),
+        ('LL-2-2', L(L(I(), I(2))), L(L(I(2), I()))),
+        ('LL-21-2', L(L(I(), I()), L(I())), L(L(I(), I(2)))),
+        ('LLi-1i-i1', L(L(I()), I(2)), L(I(2), L(I()))),
+        ('LD', L(D(I(), I(2)), I()), L(D(I(), I()), I(2))),
+        ('LD2', L(D(I()), D(I(2))), L(D(I(2)), D(I()), D(I()))),
+        ('DL', D(L(I(), I(2)), I()), D(L(I(), I()), I(2))),
+        ('DL2', D(L(I(), I(2))), D(L(I(2)), L(I()))),
+        ('DD', D(D(I()), I(2)), D(D(I(2)), D(I()))),
+        ('DD2', D(D(I(), I(2))), D(D(I(2)))),
+    ]
+    if not quick:
+        nested += [
+            ('LL-22-22', L(L(I(), I()), L(I(), I(2))), L(L(I(), I()), L(I(), I(2)))),
+            ('LL-22-21', L(L(I(), I(2)), L(I(), I())), L(L(I(), I()), L(I(2)))),
+            ('LLL', L(L(L(I()), I()), I()), L(L(L(I(2))), I())),
+            ('LD3', L(D(I(), I(2)), D(I())), L(D(I(), I()), D(I(2)), I())),
+            ('DD3', D(D(I(), I(2)), D(I())), D(D(I(2), I()), I())),
+        ]
+    for name, A, B_ in nested:
+        for st in ['auto', 'none', 'match']:
+            for lm in (['on', 'off'] if 'L' in name else ['on']):
+                out.append((name, A, B_, [st], [lm], 20))
+    # cross-kind and scalar kinds (Replace / kind-changing matches)
+    cross = [
+        ('x-list-dict', L(I(), I(2)), D(I(), I(2))),
+        ('x-dict-list', D(I(), I(2)), L(I(), I(2))),
+        ('x-int-list', I(2), L(I(2))),
+        ('x-list-int', L(I()), I()),
+        ('x-list-null', L(I(), ('n',)), L(('n',), I())),
+        ('x-list-bool', L(I(), ('b', True)), L(('b', True), I())),
+        ('x-list-bool2', L(('b', False), I(2)), L(I(), ('b', True), I())),
+        ('x-dict-null', D(('n',), I()), D(I(), ('n',))),
+        ('x-int-str', L(I(), ('s', 1)), L(('s', 1), I())),
+        ('x-int-int', I(2), I(1)),
+        ('x-str-str', ('s', 2), ('s', 2)),
+        ('x-liststr', L(('s', 2), I()), L(('s', 2), ('s', 1))),
+        ('x-mset-list', ('mset', [I(), I(2)]), L(I(), I(2))),
+    ]
+    for name, A, B_ in cross:
+        out.append((name, A, B_, ['auto', 'none'], ['on'], 5))
+    # plist wrappers (C09's subject; C01/C03/C04 cover the wrapper's EditCollection)
+    for name, A, B_ in [('plist-LL', ('plist', L(I(), I(2))), ('plist', L(I(2), I()))),
+                        ('plist-DD', ('plist', D(I(), I(2))), ('plist', D(I(2)))),
+                        ('plist-L-x', ('plist', L(I(), I(2))), L(I(2), I()))]:
+        out.append((name, A, B_, ['auto'], ['on'], 5))
+    if want:
+        out = [f for f in out if any(f[0].startswith(w) for w in want)]
+    return out
+
+
+def tree_jobs(tier, want=None, extra=None, skip=None):
+    jobs = []
+    for name, A, B_, strategies, modes, weight in families(tier, want):
+        if skip and any(name.startswith(s) for s in skip):
+            continue
+        for st in strategies:
+            for lm in modes:
+                j = dict(fam=name, A=A, B=B_, dict=st, list=lm, weight=weight,
+                         alpha=3 if tier == 'quick' else 4)
+                if extra:
+                    j['extra'] = dict(extra)
+                jobs.append(j)
+    return jobs
+
+
+KNOWN_DUP_JOBS = [
+    dict(fam='mset-dups-32', A=('mset', ileaves(3, 'a'), 'dups'), B=('mset', ileaves(2, 'a'), 'dups'), weight=50),
+    dict(fam='mset-dups-22', A=('mset', ileaves(2, 'c'), 'dups'), B=('mset', ileaves(2, 'c'), 'dups'), weight=50),
+]
+
+
+def has_duplicate_members(w):
+    """region predicate of the listed finding 'multiset with equal members': some multiset in either document
+    contains two equal members"""
+    def walk_(o):
+        if builtins.isinstance(o, dict):
+            if '__mset__' in o:
+                ms = o['__mset__']
+                if any(ms[i] == ms[j] for i in range(len(ms)) for j in range(i + 1, len(ms))):
+                    return True
+                return any(walk_(c) for c in ms)
+            if '__plist__' in o:
+                return walk_(o['__plist__'])
+            if '__dict__' in o:
+                return any(walk_(k) or walk_(v) for k, v in o['__dict__'])
+        if builtins.isinstance(o, list):
+            return any(walk_(c) for c in o)
+        return False
+    return walk_(w.get('A')) or walk_(w.get('B'))
+
+TREE_FUNCTIONS = ["graphtage.json.build_tree", "TreeNode.diff", "TreeNode.edits (ListNode, MultiSetNode, DictNode, FixedKeyDictNode, "
+                  "KeyValuePairNode, LeafNode, StringNode, NullNode, PLISTNode)", "EditDistance.__init__/tighten_bounds/bounds/edits/"
+                  "_best_match/_next_fringe/_cleanup", "FixedLengthSequenceEdit", "MultiSetEdit", "WeightedBipartiteMatcher",
+                  "bounds.make_distinct", "bounds.repeat_until_tightened", "Range", "EditCollection", "FixedKeyDictNodeEdit",
+                  "KeyValuePairEdit", "Match/Replace/Remove/Insert.on_diff", "CompoundEdit.on_diff", "EditedTreeNode.edited_cost",
+                  "TreeNode.get_all_edits", "StringEdit / string_edit_distance (character leaves)",
+                  "levenshtein_distance (as a summary computed from the real function on every run)"]
+TREE_STUBS = ["numpy matrix in graphtage.levenshtein -> list matrix", "intervaltree in graphtage.bounds -> list model with "
+              "nondeterministic tie order", "matching.min_weight_bipartite_matching -> contract stub (any optimal assignment; "
+              "decided on the real function by C15)", "DEFAULT_PRINTER.tqdm -> null progress bar (quiet flag kept)",
+              "isinstance/int/type/str shims for proxies in graphtage.{bounds,matching,search,edits,graphtage,sequences,multiset,"
+              "levenshtein,json}"]
+TREE_ASSUME = ["mapping keys are pairwise distinct inside one mapping (JSON/YAML loaders guarantee it)",
+               "multisets with two equal members are excluded from the main jobs (listed finding KF-mset-duplicates) and explored by "
+               "dedicated jobs", "leaf text: ints of 1-2 digits over an alphabet of 3 (thorough 4) digits, strings of 1-2 letters; "
+               "longer text, floats, XML/dataclass nodes outside the claim",
+               "replay uses the real numpy/scipy/intervaltree/levenshtein with progress bars suppressed"]
+TREE_FILES = ['graphtage/levenshtein.py', 'graphtage/multiset.py', 'graphtage/sequences.py', 'graphtage/graphtage.py', 'graphtage/edits.py', 'graphtage/tree.py', 'graphtage/plist.py', 'graphtage/matching.py', 'graphtage/bounds.py', 'graphtage/json.py']
+
+
+def tree_bounds_text(tier):
+    if tier == 'quick':
+        return ("lists n,m<=3 x 3 list modes; multisets n+m<=5; mappings n,m<=3 x {auto,none} (+match for n+m<=4); 11 depth-2 "
+                "nestings (list/dict of list/dict) x 3 strategies x list on/off; 13 cross-kind pairs (null/bool/str/int/list/dict/"
+                "multiset); plist wrappers; leaf lengths mixed 1/2; alphabet 3; every leaf value symbolic")
+    return ("lists n,m<=4 (n+m<=7) x 3 list modes x 4 length patterns; multisets n+m<=6; mappings n,m<=3 x 3 strategies; 16 depth-2/3 "
+            "nestings; cross-kind pairs; plist wrappers; alphabet 4")
